@@ -98,6 +98,9 @@ func dfs(name string, procc *runtime.Script, sPath *searchPath, p *param) error 
 	}
 
 	if _, ok := p.retMap[name]; ok {
+		// already resolved: it must not stay on the search path, or a second
+		// use of the same script would look like a cycle
+		sPath.Pop()
 		return nil
 	}
 
